@@ -308,10 +308,10 @@ func forDots(v reflect.Value) (int, bool) {
 // Bindings of one match attempt. Values are never mutated after creation
 // (copy on write), so backtracking is safe.
 type Bindings struct {
-	Vars map[string]reflect.Value   // metavariable -> bound node (concrete pointer value)
-	Runs map[int][]reflect.Value    // elision -> elided elements
-	Loop map[int]reflect.Value      // for-header elision -> the matched *ForStmt / *RangeStmt
-	Lens []int                      // run lengths in the order they were chosen (lexicographic key)
+	Vars map[string]reflect.Value // metavariable -> bound node (concrete pointer value)
+	Runs map[int][]reflect.Value  // elision -> elided elements
+	Loop map[int]reflect.Value    // for-header elision -> the matched *ForStmt / *RangeStmt
+	Lens []int                    // run lengths in the order they were chosen (lexicographic key)
 }
 
 func (b *Bindings) clone() *Bindings {
@@ -1117,7 +1117,9 @@ func (r *rewriter) subst(p reflect.Value, b *Bindings) (reflect.Value, error) {
 // tree (e.g. an expression bound where only a name can go inside the pattern).
 type ErrInadmissible struct{ What string }
 
-func (e *ErrInadmissible) Error() string { return "model: instantiated '+' pattern is ill-typed: " + e.What }
+func (e *ErrInadmissible) Error() string {
+	return "model: instantiated '+' pattern is ill-typed: " + e.What
+}
 
 // ---------------------------------------------------------------------------
 // Allowed outputs
